@@ -125,10 +125,10 @@ Definition srk_rec_key (r : srk_rec) : res key :=
         end
       else Err 1
   end.
-(* record-level verify() of a v1 record; Err 2 = KeyError on KEY_SIZES[key_size] *)
+(* record-level verify() of a v1 record *)
 Definition srk_rec_verify (r : srk_rec) : res bool :=
   match lookup2 g_ahab1_key_sizes (sr_ksid r) with
-  | None => Err 2
+  | None => Ok false                                       (* "Unknown key size code" *)
   | Some (l1, l2) =>
       let alg := sr_alg r in
       let ks_ok := if (alg =? 33) || (alg =? 34) then mem_n (sr_ksid r) (map snd g_ahab1_rsa_type)
@@ -214,11 +214,14 @@ Definition rotmeta_export (m : rotmeta) : res (list N) :=
 Definition rsa_meta_parse (d : list N) : res rotmeta :=
   if nlen d <? 128 then Err 1 else
   Ok (RMRsa (filter (fun it => negb (all_zero it)) (map (fun i => slice d (i * 32) ((i + 1) * 32)) [0; 1; 2; 3]%nat))).
+(* size of one table entry: the digest, HASH_SIZES[HASH_SIZE] // 8 = 32 / 48 / 64 *)
+Definition ecc_item_size (hs : N) : nat :=
+  match lookup g_hash_sizes hs with Some bits => N.to_nat (bits / 8) | None => N.to_nat hs end.
 (* RotMetaEcc<hs>.parse *)
 Definition ecc_meta_parse (hs : N) (d : list N) : res rotmeta :=
   bind (flags_parse (firstn 4 d)) (fun uc =>
     let '(used, cnt) := uc in
-    let tb := skipn 4 d in let h := N.to_nat hs in
+    let tb := skipn 4 d in let h := ecc_item_size hs in
     Ok (RMEcc hs used cnt (if 1 <? cnt then map (fun i => slice tb (i * h) ((i + 1) * h)) (seq 0 (N.to_nat cnt)) else []))).
 (* RotMetaEdgeLockEnclave.parse *)
 Definition ele_meta_parse (d : list N) : res rotmeta :=
@@ -380,7 +383,7 @@ Definition dc_parse (d : list N) : res (klass * dc) :=
         if negb (version_ok maj mi) then Err 1 else
         bind (class_of ele cnt maj mi) (fun oc =>
           match oc with
-          | None => Err 1                                  (* AhabCertificate.parse rejects the data *)
+          | None => bind (dc_parse_class CEle d) (fun x => Ok (CEle, x))   (* container v2 has refused the data above *)
           | Some c => bind (dc_parse_class c d) (fun x => Ok (c, x))
           end)
     end)).
@@ -402,9 +405,9 @@ Definition dc_calc_hash (c : klass) (d : dc) : res (list N) :=
           if is_ecc_key (d_rot d) then bind (key_halg (d_rot d)) (fun a => bind (raw_key (d_rot d)) (fun b => Ok (hash a b)))
           else Err 2
       | tb => if cnt =? 0 then Err 2 else
-              let per := nlen tb / cnt in
-              match lookup g_hash_sizes per with
-              | None => Err 2                                (* KeyError in RotMetaEcc.key_size *)
+              (* RotMetaEcc.key_size: HASH_SIZES[HASH_SIZE] of the subclass *)
+              match lookup g_hash_sizes hs with
+              | None => Err 2
               | Some bits => if bits =? 256 then Ok (sha256 tb) else if bits =? 384 then Ok (sha384 tb)
                              else if bits =? 512 then Ok (sha512 tb) else Err 1
               end
@@ -444,6 +447,8 @@ Definition dc_create (ele cnt : N) (socc : N) (ks : list key) (rot_id : N) (dck 
   | Some rot =>
       bind (version_of_key rot) (fun v =>
       bind (class_of ele cnt (fst v) (snd v)) (fun oc =>
+      if negb (length uuid =? 16)%nat then Err 1 else
+      if negb (Bool.eqb (is_ecc_key dck) (is_ecc_key rot) && (key_bits dck =? key_bits rot)) then Err 1 else
       match oc with
       | None => Err 2                                      (* base-class create with the ELE v2 class: TypeError *)
       | Some c =>
